@@ -767,6 +767,35 @@ fn gen_t6(rng: &mut Rng) -> Yaml {
     Yaml::Mapping(rule)
 }
 
+/// A rule with hundreds of needles that the optimiser merges: sequence of 200..257 single-key
+/// mappings on one or two fields (used where hash- or size-dependent code must be reached often).
+pub fn gen_big(rng: &mut Rng) -> Yaml {
+    if rng.chance(1, 2) {
+        return gen_t6(rng);
+    }
+    let n = *rng.pick(&[200usize, 254, 255, 256, 257]);
+    let mut entries = vec![];
+    for i in 0..n {
+        let mut m = Mapping::new();
+        let f = if i % 7 == 0 { "b" } else { "a" };
+        m.insert(ystr(f), ystr(&match i % 4 {
+            0 => format!("v{}*", i),
+            1 => format!("*v{}", i),
+            2 => format!("*v{}*", i),
+            _ => format!("v{}", i),
+        }));
+        entries.push(Yaml::Mapping(m));
+    }
+    let mut det = Mapping::new();
+    det.insert(ystr("A"), Yaml::Sequence(entries));
+    det.insert(ystr("condition"), ystr(*rng.pick(&["A", "not A", "of(A, 2)"])));
+    let mut rule = Mapping::new();
+    rule.insert(ystr("detection"), Yaml::Mapping(det));
+    rule.insert(ystr("true_positives"), Yaml::Sequence(vec![]));
+    rule.insert(ystr("true_negatives"), Yaml::Sequence(vec![]));
+    Yaml::Mapping(rule)
+}
+
 /// A complete rule as a YAML value (detection + empty example lists).
 pub fn gen_rule(rng: &mut Rng, k: &Knobs) -> Yaml {
     if k.has(F_T6) || rng.chance(1, 150) {
